@@ -718,7 +718,9 @@ func (c *Ctx) banRecorded() {
 		okRet := true
 		for _, r := range find(fn, isExit) {
 			v := ir.RetVal(r.(*ssa.Return), 0)
-			if !ir.DerivesFrom(v, valIsCallTo(upd)) {
+			if !ir.DerivesFrom(v, valIsCallTo(upd)) && !isRefusal(r.(*ssa.Return)) {
+				// (a refusal - a non-nil error - before the transaction
+				// reports no success)
 				okRet = false
 			}
 		}
@@ -730,6 +732,9 @@ func (c *Ctx) banRecorded() {
 			var hbad []string
 			for _, r := range find(h, isExit) {
 				v := ir.RetVal(r.(*ssa.Return), 0)
+				if isRefusal(r.(*ssa.Return)) {
+					continue // a non-nil error reports no success
+				}
 				if ir.IsNil(v) || !(valIsCallTo(put)(v) || ir.DerivesFrom(v, valIsCallTo(put))) {
 					hbad = append(hbad, "return at "+c.at(r)+" is not the result of a Put")
 				}
